@@ -207,6 +207,8 @@ func runC19(c *Ctx) {
 	ruleDecimalGuard(c, p, "C19.decimal-guard")
 	ruleScale(c, p, "C19.scale")
 	ruleStringIndexGuard(c, p, "C19.index-guard")
+	ruleDictIndependentOfRows(c, p, "C19.dict-rows")
+	ruleEnumNameNotSentinel(c, p, "C19.enum-sentinel")
 	ruleFreshTargets(c, p, "C19.fresh")
 	ruleMapInfer(c, p, "C19.mapinfer")
 	ruleForwardUnconditional(c, p, "C19.forward-always")
